@@ -1,7 +1,9 @@
 (* C14 -- `whatshap split` distributes every read to exactly the outputs its haplotype entry selects.
    Only the property theorems (each closed by `exact`), their assumption printouts and non-vacuity
-   examples.  Model: coq/model/Split.v (run rs c l reads; rs = the switchable defective rules,
-   `current` = the code as it is, `repaired` = all four rules repaired).  All statements are for
+   examples.  Model: coq/model/Split.v (run rs c l reads; rs = the switchable rules that this check
+   found defective; `repaired` = the code as it is now (after cfc35a5, e3aea4e, fd3a952, 8e35f52 in
+   /repo) -- the correspondence check demands exactly this rule set; `legacy` = the code before those
+   fixes, kept only for the `_refuted` witnesses).  All statements are for
    arbitrary read lists (duplicate names, identical records, length 0 included), arbitrary lists
    (repeated names, names absent from the reads, `none` lines) and any ploidy / option set. *)
 From Coq Require Import ZArith List Bool Arith Sorting.Sorted.
@@ -35,13 +37,12 @@ Theorem C14_assign_in_candidates : forall (c : cfg) (es : list entry) (n : Z),
 Proof. exact assign_in_cands. Qed.
 Print Assumptions C14_assign_in_candidates.
 
-(* --only-largest-block: a block that is strictly the largest of its chromosome is the one kept *)
-Theorem C14_largest_block_selected : forall (es : list entry) (c p : Z),
-  clearly_largest es c p = true ->
-  (exists e, In e es /\ tagged e && (echrom e =? c) = true /\ eps e = p) ->
-  best_block es c = Some p.
-Proof. exact best_block_clear. Qed.
-Print Assumptions C14_largest_block_selected.
+(* --only-largest-block: the block the code keeps per chromosome is the first-inserted block of
+   maximal size (most tagged lines; among several of that size the one appearing first in the list) *)
+Theorem C14_largest_block_is_first_maximal : forall (es : list entry) (c : Z),
+  best_block es c = first_max es c.
+Proof. exact best_block_first_max. Qed.
+Print Assumptions C14_largest_block_is_first_maximal.
 
 Theorem C14_assign_range : forall (c : cfg) (es : list entry) (n : Z),
   forallb (hap_ok (ploidy c)) es = true -> 0 <= assign c es n <= Z.of_nat (ploidy c).
@@ -66,7 +67,7 @@ Theorem C14_routing : forall (rs : rules) (c : cfg) (l : hlist) (reads : list re
 Proof. exact routing. Qed.
 Print Assumptions C14_routing.
 
-(* Without --discard-unknown-reads the early exit is dead code, so this also holds for the current pass. *)
+(* Without --discard-unknown-reads the early exit is dead code, so this also holds for the legacy pass. *)
 Theorem C14_routing_default : forall (rs : rules) (c : cfg) (l : hlist) (reads : list read) outs hist (o : nat),
   fastq_via_str rs = false ->
   add_untagged c = false -> discard c = false ->
@@ -110,36 +111,36 @@ Print Assumptions C14_early_exit_exact_for_unique_names.
    the untagged output stays empty although read c (payload 104) belongs there. *)
 Theorem C14_discard_spec_refuted :
   valid_input w_cfg w_list = true /\
-  exists outs hist, run current w_cfg w_list w_reads = Done outs hist /\
+  exists outs hist, run legacy w_cfg w_list w_reads = Done outs hist /\
     nth 0 outs None = Some [] /\
     exp_out w_cfg (entries w_list) (assign w_cfg (entries w_list)) w_reads 0 = [104] /\
     l1 w_cfg w_list w_reads (run (rules_of 1) w_cfg w_list w_reads) = false.
 Proof. exact early_exit_refutes_discard_spec. Qed.
 Print Assumptions C14_discard_spec_refuted.
 
-(* A valid list that names a read twice (what haplotag writes for paired reads) makes the current
+(* A valid list that names a read twice (what haplotag writes for paired reads) makes the legacy
    code fail an assertion under --discard-unknown-reads; the repaired rule accepts it. *)
 Theorem C14_list_duplicate_names_refuted :
   valid_input w_cfg w_list2 = true /\
-  run current w_cfg w_list2 w_reads = Fail EAssertDup /\
+  run legacy w_cfg w_list2 w_reads = Fail EAssertDup /\
   l1 w_cfg w_list2 w_reads (run (rules_of 2) w_cfg w_list2 w_reads) = false /\
   l1 w_cfg w_list2 w_reads (run repaired w_cfg w_list2 w_reads) = true.
 Proof. exact dup_assert_refutes_totality. Qed.
 Print Assumptions C14_list_duplicate_names_refuted.
 
-(* "unmodified" fails for the current FASTQ path whenever str(FastxRecord) differs from the record
+(* "unmodified" fails for the legacy FASTQ path whenever str(FastxRecord) differs from the record
    (pysam prints a record with empty quality string as FASTA) *)
 Theorem C14_unmodified_refuted : forall (c : cfg) (l : hlist) (r : read),
-  rlibstr r <> rpayload r -> check_list current c l = None ->
+  rlibstr r <> rpayload r -> check_list legacy c l = None ->
   nth 1 (req c) false = true -> kept c (entries l) r = true -> assign c (entries l) (rname r) = 1 ->
-  exists outs hist, run current c l [r] = Done outs hist /\ nth 1 outs None = Some [rlibstr r] /\
+  exists outs hist, run legacy c l [r] = Done outs hist /\ nth 1 outs None = Some [rlibstr r] /\
     exp_out c (entries l) (assign c (entries l)) [r] 1 = [rpayload r].
 Proof. exact str_refutes_unmodified. Qed.
 Print Assumptions C14_unmodified_refuted.
 
 (* --- partition ----------------------------------------------------------------------------------- *)
 
-(* All outputs requested, no --add-untagged, no --discard-unknown-reads (any rule set, current
+(* All outputs requested, no --add-untagged, no --discard-unknown-reads (any rule set, legacy
    included): label every input position with the haplotype of its name; every label is one of the
    ploidy+1 outputs and output o is exactly the subsequence of positions labelled o.  Hence the
    outputs are disjoint order-preserving subsequences whose interleaving is the input. *)
@@ -186,9 +187,9 @@ Print Assumptions C14_histogram_vs_input.
 (* Current row rule: a length present in two classes is printed twice, the column sum doubles. *)
 Theorem C14_histogram_counts_refuted :
   valid_input w_cfg3 w_list = true /\
-  exists outs rows, run current w_cfg3 w_list w_reads3 = Done outs (Some rows) /\
+  exists outs rows, run legacy w_cfg3 w_list w_reads3 = Done outs (Some rows) /\
     rows = [[4; 0; 1; 1]; [4; 0; 1; 1]; [5; 1; 0; 0]] /\
-    sumcol rows 4 1 = 2 /\ hcount (events current w_cfg3 w_list w_reads3) 1 4 = 1 /\
+    sumcol rows 4 1 = 2 /\ hcount (events legacy w_cfg3 w_list w_reads3) 1 4 = 1 /\
     l1 w_cfg3 w_list w_reads3 (run (rules_of 4) w_cfg3 w_list w_reads3) = false.
 Proof. exact hist_rows_refute_counts. Qed.
 Print Assumptions C14_histogram_counts_refuted.
@@ -226,7 +227,7 @@ Example C14_example_repaired :
   run repaired c l reads =
     Done [Some [102; 105]; Some [101; 102; 103; 105]; Some [102; 105]; Some [102; 104; 105]]
          (Some [[0; 1; 0; 0; 0]; [2; 0; 0; 0; 1]; [4; 1; 2; 0; 0]]) /\
-  run current c l reads =
+  run legacy c l reads =
     Done [Some [102; 105]; Some [101; 102; 103; 105]; Some [102; 105]; Some [102; 104; 105]]
          (Some [[0; 1; 0; 0; 0]; [2; 0; 0; 0; 1]; [4; 1; 2; 0; 0]; [4; 1; 2; 0; 0]]).
 Proof. vm_compute. repeat split; reflexivity. Qed.
@@ -237,15 +238,19 @@ Example C14_example_partition :
   let l := mkList true true [(1, 1, 7, 1); (2, 3, 7, 1); (3, 0, 7, 1); (9, 2, 8, 1)] in
   let reads := [(1, 4, 101, 101); (4, 0, 102, 102); (1, 4, 103, 103); (2, 2, 104, 104); (3, 4, 105, 105)] in
   all_requested c = true /\
-  run current c l reads = Done [Some [102; 105]; Some [101; 103]; Some []; Some [104]] None.
+  run legacy c l reads = Done [Some [102; 105]; Some [101; 103]; Some []; Some [104]] None.
 Proof. vm_compute. split; reflexivity. Qed.
 
-(* --only-largest-block: block 7 (3 lines) beats block 8 on chromosome 1; name 5 sits in block 8 *)
+(* --only-largest-block: block 7 (3 lines) beats block 8 on chromosome 1; on chromosome 2 blocks 9
+   and 5 tie with two lines each and 9, which comes first in the list, is kept (5 < 9: neither the
+   smallest nor the last) *)
 Example C14_example_largest_block :
   let c := mkCfg true [true; true] false true true false in
-  let es := [(1, 1, 7, 1); (2, 2, 7, 1); (3, 1, 7, 1); (5, 2, 8, 1); (6, 0, 0, 1)] in
-  clearly_largest es 1 7 = true /\ map (assign c es) [1; 2; 3; 5; 6; 4] = [1; 2; 1; 0; 0; 0] /\
-  map (cands c es) [1; 5; 6; 4] = [[1]; [0]; [0]; [0]].
+  let es := [(1, 1, 7, 1); (10, 1, 9, 2); (2, 2, 7, 1); (11, 2, 5, 2); (3, 1, 7, 1); (5, 2, 8, 1);
+             (12, 1, 5, 2); (6, 0, 0, 1); (13, 2, 9, 2)] in
+  first_max es 1 = Some 7 /\ first_max es 2 = Some 9 /\
+  map (assign c es) [1; 2; 3; 5; 6; 4; 10; 11; 12; 13] = [1; 2; 1; 0; 0; 0; 1; 0; 0; 2] /\
+  map (cands c es) [1; 5; 6; 4; 10; 11] = [[1]; [0]; [0]; [0]; [1]; [0]].
 Proof. vm_compute. repeat split; reflexivity. Qed.
 
 (* the hypothesis of C14_early_exit_exact_for_unique_names is the dividing line: the witness of
